@@ -1,0 +1,13 @@
+//go:build !verif
+
+package m
+
+// No-op twins of the verification hooks in verif_switch_trace.go.
+
+func verifSwitchCopy([]byte) []byte { return nil }
+
+func verifSwitchRotate(_, _ []byte, _, _ SwitchLabel) {}
+
+func verifSwitchReverse(_, _ []byte) {}
+
+func verifSwitchBuild(*SwitchPath, error) {}
